@@ -64,7 +64,7 @@ def execute(case, prefix, seed):
     S = len(kinds)
     ch = grid.Chooser(prefix)
     server_kw = {i: {"readonly_storage": True} for i, kd in enumerate(kinds) if kd == "readonly"}
-    g = grid.Grid(S, chooser=ch, fault_kinds=tuple(case.get("fault_kinds", ())), server_kw=server_kw,
+    g = grid.Grid(S, nclients=2, chooser=ch, fault_kinds=tuple(case.get("fault_kinds", ())), server_kw=server_kw,
                   client_kw=dict(k=K, n=N, happy=case["happy"], max_segment_size=SEG))
     viol, obs = [], {}
     try:
@@ -109,7 +109,8 @@ def execute(case, prefix, seed):
             obs["happiness"] = hap
             if hap < case["happy"]:
                 viol.append(("success-below-happiness", "upload reported success with happy=%d but the shares really on disk %r have a maximum matching of %d" % (case["happy"], sorted(real), hap)))
-            node = g.clients[0].create_node_from_uri(ur.get_uri())
+            # read back through a second client: the uploader's connections may have been cut by injected faults
+            node = g.clients[1].create_node_from_uri(ur.get_uri())
             b2, cons = lib_imm.read(g, node)
             if not b2 or b2[0][0] != "ok" or cons.data() != prep["data"]:
                 if len(set(sh for sv, sh in real)) >= K:
@@ -138,9 +139,10 @@ def execute(case, prefix, seed):
     return ch.trace, viol, obs
 
 
-def chunk(cases, seed, d_bound, f_bound, max_exec):
+def chunk(tasks, seed, d_bound, f_bound, max_exec, collect=None):
     res = common.Result()
-    for case in cases:
+    for task in tasks:
+        case, root = task if isinstance(task, tuple) else (task, [])
         gate = {}
 
         def ex(prefix):
@@ -155,13 +157,15 @@ def chunk(cases, seed, d_bound, f_bound, max_exec):
             res.distinct.add((obs.get("outcome"), obs.get("happiness")))
             for sig, msg in viol:
                 res.violation(sig, {"case": case, "prefix": prefix}, msg + " | case=%r schedule=%r" % (case, prefix))
+            if collect and not prefix:
+                res.notes.setdefault("children", []).extend((case, p) for p in grid.children([], trace, collect[0], collect[1]))
             if any(prefix) and not gate:
                 gate["x"] = 1
                 t2, v2, o2 = execute(case, prefix, seed)
                 if o2 != obs:
                     raise grid.HarnessError("nondeterministic replay %r %r: %r vs %r" % (case, prefix, obs, o2))
                 res.sample({"case": case, "schedule": prefix, "outcome": obs.get("outcome"), "happiness_on_disk": obs.get("happiness")})
-        n, capped = grid.explore_subtree(ex, [], d_bound, f_bound, on_exec, max_exec=max_exec)
+        n, capped = grid.explore_subtree(ex, root, d_bound, f_bound, on_exec, max_exec=max_exec)
         res.count("trees")
         if capped:
             res.count("capped_trees")
@@ -200,11 +204,11 @@ def run(tier, seed):
     n0 = res.counts.get("executions", 0)
     faults = ["error", "error-after", "disconnect"]
     reps = rep_cases()
-    plan = [(reps, 1, 0), (reps[::2], 0, 1)] if tier == "quick" else [(reps, 2, 0), (reps, 1, 1), (reps[::2], 0, 2)]
+    plan = [(reps, 1, 0), (reps[::2], 0, 1), (reps[1::5], 1, 1)] if tier == "quick" else [(reps, 3, 0), (reps, 1, 2), (reps, 2, 1)]
     desc = []
     for sel, d, f in plan:
         sel = [dict(c, fault_kinds=faults if f else []) for c in sel]
-        res.merge(common.pmap(chunk, sel, (seed, d, f, 8000), chunks=len(sel)))
+        res.merge(grid.split_tasks(common.pmap, chunk, sel, (seed,), d, f))
         desc.append("%d grids at d<=%d,f<=%d" % (len(sel), d, f))
     cov = {
         "states": res.counts.get("executions", 0),
